@@ -460,3 +460,21 @@ package keeper
 //@   ensures[C02.aows.share] err == nil && keys.OperatorAddr == accstr(operatorAddress) ==>
 //@        opSelf(ctx, accstr(operatorAddress), keys.AssetID) == old(opSelf(ctx, accstr(operatorAddress), keys.AssetID)) + val(amounts.UndelegatableShare)
 //@   ensures[C02.aows.other] keys.OperatorAddr != accstr(operatorAddress) ==> state(ctx) == old(state(ctx)) && err == nil
+
+// ---------------------------------------------------------------------------------------------
+// C01 (a decrease of a native-restaking balance takes exactly the decrease out of the ledger, never adds anything): per
+// pending undelegation visited with p > 0 still to take: the record loses min(p, what it still owes), the staker's total
+// deposit loses the same, what is left to take is p minus what the record owed, and the iteration stops exactly when
+// nothing is left to take (so no record is ever visited with p <= 0).
+//@ define nstTaken(p, owed) = imin(val(p), val(owed))
+//@ func (Keeper).UpdateNSTBalance$1
+//@   requires undelegation != nil && !isnil(undelegation.ActualCompletedAmount) && val(undelegation.ActualCompletedAmount) >= 0
+//@   requires !isnil(pendingSlashAmount) && val(pendingSlashAmount) > 0
+//@   requires stDeposit(ctx, stakerID, assetID) >= 0
+//@   flag pure=Logger
+//@   modifies state(ctx), *undelegation
+//@   ensures[C01.nst.record] err == nil ==> val(undelegation.ActualCompletedAmount) == old(val(undelegation.ActualCompletedAmount)) - nstTaken(pendingSlashAmount, old(undelegation.ActualCompletedAmount)) &&
+//@        val(undelegation.ActualCompletedAmount) >= 0
+//@   ensures[C01.nst.deposit] err == nil ==> stDeposit(ctx, stakerID, assetID) == old(stDeposit(ctx, stakerID, assetID)) - nstTaken(pendingSlashAmount, old(undelegation.ActualCompletedAmount))
+//@   ensures[C01.nst.left]   err == nil ==> val(final_pendingSlashAmount) == val(pendingSlashAmount) - old(val(undelegation.ActualCompletedAmount))
+//@   ensures[C01.nst.stop]   err == nil ==> (r0 <==> val(final_pendingSlashAmount) <= 0)
